@@ -27,7 +27,7 @@ RULE = (
 ASSUMPTIONS = [
     "hand-built sparse outputs are formatted with the classes' own _format_sparse_output (the format detectors emit; its structure is C04's subject)",
     "affected columns are compared as sets (the statement allows any order)",
-    "supported index kinds: RangeIndex 0..n, RangeIndex with offset, RangeIndex with step 2, daily DatetimeIndex, monthly PeriodIndex",
+    "supported index kinds: RangeIndex 0..n, RangeIndex with offset, RangeIndex with step 2, daily DatetimeIndex, monthly PeriodIndex; on reduced families also tz-aware (across a DST change) and irregular DatetimeIndex, named RangeIndex, irregular integer index, quarterly PeriodIndex",
 ]
 
 
@@ -160,6 +160,18 @@ def conv_cases(tier):
         for s in interval_sets(n):
             for ik in dets.INDEX_KINDS:
                 yield {"fam": "conv", "kind": "collective", "n": n, "events": [list(e) for e in s], "index": ik, "cols": "default"}
+    # further index kinds on the smaller sizes
+    for n in range(1, (5 if q else 6) + 1):
+        for ik in dets.INDEX_KINDS_EXTRA:
+            for k in range(0, n):
+                for cps in itertools.combinations(range(1, n), k):
+                    yield {"fam": "conv", "kind": "change", "n": n, "events": list(cps), "index": ik, "cols": "default"}
+            for s in interval_sets(n):
+                yield {"fam": "conv", "kind": "collective", "n": n, "events": [list(e) for e in s], "index": ik, "cols": "default"}
+                if n <= 3:
+                    for cols in itertools.product([(0,), (1,), (0, 1), (1, 0)], repeat=len(s)):
+                        yield {"fam": "conv", "kind": "subset", "n": n, "p": 2, "events": [[a, b, list(c)] for (a, b), c in zip(s, cols)],
+                               "index": ik, "cols": "str"}
     for p, top in ((1, 5), (2, 4 if q else 5), (3, 3 if q else 4)):
         subsets = [c for r in range(1, p + 1) for c in itertools.combinations(range(p), r)]
         # also reversed column order (icolumns are listed by decreasing saving, not sorted)
@@ -188,6 +200,9 @@ def det_cases(tier, seed):
                     yield {"fam": "det", "det": name, "x": [[v] for v in xs], "index": ik, "cols": "default"}
         for xs in itertools.product(alph_s, repeat=6):
             yield {"fam": "det", "det": name, "x": [[v] for v in xs], "index": "offset", "cols": "str"}
+        for xs in itertools.product(alph, repeat=6):
+            for ik in dets.INDEX_KINDS_EXTRA:
+                yield {"fam": "det", "det": name, "x": [[v] for v in xs], "index": ik, "cols": "default"}
     for n in ((4, 5) if q else (4, 5, 6)):
         for flat in itertools.product(alph, repeat=2 * n):
             x = [list(flat[2 * i:2 * i + 2]) for i in range(n)]
@@ -209,7 +224,7 @@ def shards(tier, seed):
 
 def bounds(tier, seed):
     return {"conv": "changepoint subsets n<=9 (quick)/11; interval sets n<=8/9; subset variant p=1 n<=5, p=2 n<=4/5, p=3 n<=3/4 (all non-empty column subsets, both column orders)",
-            "index_kinds": list(dets.INDEX_KINDS), "column_labels": ["default ints", "strings"],
+            "index_kinds": list(dets.INDEX_KINDS), "index_kinds_on_reduced_families": list(dets.INDEX_KINDS_EXTRA), "column_labels": ["default ints", "strings"],
             "det": "6 univariate detectors on all (0,4) series n in (6,7) quick / (6..9) thorough x 5 index kinds; MVCAPA on all 2-column (0,4) series n in (4,5)/(4,5,6)"}
 
 
